@@ -76,23 +76,23 @@ def multi(*engines):
     return steps
 
 
-add("C14", "exploration", ["dbh"], dbh("c14", ["--random", "3000"], ["--random", "60000"]),
+add("C14", "exploration", ["dbh"], dbh("c14", ["--random", "24000"], ["--random", "300000"]),
     "oracle = the property statement over exhaustive small graphs + random graphs, against an independent traversal reference",
     "Every multigraph with <= 3 nodes and <= 4 edges by every insertion sequence (7,727 graphs, exhaustive) plus random graphs with removals and "
     "id reuse; every node and edge as origin, BFS/DFS forward/reverse: origin first, result set = reachable set, no duplicates, BFS distances "
     "non-decreasing, each node's edges newest first, DFS = recursive pre-order.",
     "Graphs larger than ~10 nodes / 40 edges are outside the budget.", "DESIGN.md §6 C14")
-add("C15", "exploration", ["dbh"], dbh("c15", ["--n", "3000"], ["--n", "60000"]),
+add("C15", "exploration", ["dbh"], dbh("c15", ["--n", "24000"], ["--n", "300000"]),
     "reference condition evaluator (documented truth tables, type-strict comparisons) over random condition trees; any-of over the 4 readings of documented-ambiguous corners",
     "Random (graph, condition tree, algorithm, origin) triples; the result must equal the reference result under at least one admissible reading of "
     "the two corners the documentation leaves open. Mismatches are minimised to a single culprit condition for the signature.",
     "Where the documentation is ambiguous (beyond/not_beyond with or; beyond at the origin) either reading is accepted.", "DESIGN.md §6 C15")
-add("C16", "exploration", ["dbh"], dbh("c16", ["--n", "3000"], ["--n", "50000"]),
+add("C16", "exploration", ["dbh"], dbh("c16", ["--n", "24000"], ["--n", "300000"]),
     "relative oracle: slice and stable-sort laws against the implementation's own unsliced / unordered result",
     "Random searches of every kind with limit/offset in 0..n+3 and 0-3 order keys: never an error or panic, sliced result = the right window of the "
     "unsliced one, ordered result = stable sort (missing keys last) of the unordered one.",
     "Order across different value types under one key is not specified and is not judged (permutation and slicing still are).", "DESIGN.md §6 C16")
-add("C17", "exploration", ["dbh"], dbh("c17", ["--random", "3000"], ["--random", "60000"]),
+add("C17", "exploration", ["dbh"], dbh("c17", ["--random", "24000"], ["--random", "300000"]),
     "reference Dijkstra over element costs + product-graph witness search",
     "All small multigraphs x all node pairs (exhaustive) and random graphs with random distance-independent condition sets: the result must be the "
     "passing projection of a minimum-cost usable path, and empty exactly when no usable path exists / an endpoint is not a node / endpoints are equal.",
@@ -134,13 +134,13 @@ add("C12", "exploration", ["dbh"], dbh("c12", ["--random-cases", "200"], ["--ran
     "after reopen and after backup->DbMemory; equality is bitwise.",
     "NaN used as a key is looked up by listing (select all / keys); a failing select-by-key for a NaN key is counted, not judged.", "DESIGN.md §6 C12")
 
-add("C20", "exploration", ["dbh"], dbh("c20", ["--n", "600"], ["--n", "12000"]),
+add("C20", "exploration", ["dbh"], dbh("c20", ["--n", "4800"], ["--n", "60000"]),
     "round-trip / size oracle over generated values of every serializable type incl. a derived-type corpus",
     "Generated values of every built-in AgdbSerialize implementation, every query struct (through QueryType) and a corpus of derived user types: "
     "deserialize(serialize(x)) == x, byte-identical re-serialization, serialized_size == produced length.",
     "PathBuf values are UTF-8 (lossy conversion of non-UTF-8 paths is outside the statement); Option<T> has no implementation and is not covered.",
     "DESIGN.md §6 C20")
-add("C21", "exploration", ["dbh"], dbh("c21", ["--n", "640"], ["--n", "12000", "--inputs", "300"]),
+add("C21", "exploration", ["dbh"], dbh("c21", ["--n", "4800"], ["--n", "60000", "--inputs", "300"]),
     "panic monitor + allocation-cap allocator over mutated and random inputs to every deserializer",
     "51 deserializers (built-in, query structs, derived types, typed conversions of byte-array values) fed random bytes, structure-aware mutations of "
     "valid encodings and length-prefix extremes in worker processes: no panic, no abort, no single allocation request above 64 MiB (inputs < 1 KiB; the "
